@@ -720,10 +720,9 @@ impl<'r> Gen<'r> {
             }
             _ => {
                 let a = self.str_expr(need_local, depth + 1);
-                Expr::Call(
-                    "replace".into(),
-                    vec![a, Expr::Str("a".into()), Expr::Str("A".into())],
-                )
+                let pat = *self.r.pick(&["a", "b", "[0-9]+", "é", "[a-z]"]);
+                let rep = *self.r.pick(&["A", "_", ""]);
+                Expr::Call("replace".into(), vec![a, Expr::Str(pat.into()), Expr::Str(rep.into())])
             }
         }
     }
